@@ -166,6 +166,7 @@ struct Stats {
     incs: u64,
     decs: u64,
     bound_reruns: u64,
+    repos_netted_max_with_fee: u64,
     bound_failures: u64,
     repos_tight_max: u64,
     repos_tight_max_with_fee: u64,
@@ -391,6 +392,37 @@ fn repos_oracle(wd: &W, pre: &Ledger, st: &Stepped, pos: usize, new_lower: i32, 
         }
         s.bound_failures += 1;
     }
+    // The instruction's own contract for `new_range_token_max_*` (as for the fee-less pools judged by C08): the maximum bounds the
+    // whole requirement of the NEW range plus the transfer fee the owner is charged on the netted transfer — whatever part of it
+    // is covered by the old range's proceeds. One unit below that it must refuse, at it it must succeed.
+    let need = [toi(na.ceil()), toi(nb.ceil())];
+    for t in 0..2 {
+        let dv = dv_of(pre, post, &vault[t]);
+        let dw = balance(pre, &wallet[t]) as i128 - balance(post, &wallet[t]) as i128;
+        let fee_paid = if dv > 0 { dw - dv } else { 0 };
+        let threshold = need[t] + fee_paid;
+        if threshold <= 0 || threshold > u64::MAX as i128 {
+            continue;
+        }
+        for (m, should) in [((threshold - 1) as u64, false), (threshold as u64, true)] {
+            let (maxa, maxb) = if t == 0 { (m, u64::MAX) } else { (u64::MAX, m) };
+            let mut c = pre.clone();
+            let o = svm::process(&mut c, &world::ix_reposition_v2(&p, &w.lp, w.funder, new_lower, new_upper, new_liq, 0, 0, maxa, maxb));
+            s.bound_reruns += 1;
+            if fee_paid > 0 && need[t] > dv {
+                s.repos_netted_max_with_fee += 1;
+            }
+            if o.ok() != should {
+                return Err(format!(
+                    "reposition to [{new_lower}..{new_upper}) L {new_liq}: the new range needs {} of token {} and the owner is charged a transfer fee of {fee_paid} on the netted transfer; maximum {m} gave {} (expected {})",
+                    need[t],
+                    if t == 0 { "A" } else { "B" },
+                    o.short(),
+                    if should { "success" } else { "failure" }
+                ));
+            }
+        }
+    }
     Ok(())
 }
 
@@ -449,6 +481,7 @@ fn model<'a>(wd: &'a W, stats: &'a Mutex<Stats>) -> PoolModel<'a> {
             g.bound_failures += local.bound_failures + local.c03.threshold_failures_seen;
             g.repos_tight_max += local.repos_tight_max;
             g.repos_tight_max_with_fee += local.repos_tight_max_with_fee;
+            g.repos_netted_max_with_fee += local.repos_netted_max_with_fee;
             r
         }),
     )
@@ -489,6 +522,7 @@ pub fn run(ctx: &Ctx) -> Report {
         r.guard("handler_ops_in_the_epoch_the_newer_fee_starts", s.at_switch_epoch);
         r.guard("handler_ops_after_the_newer_fee_started", s.after_switch_epoch);
         r.guard("handler_reposition_tight_maximum_reruns_with_transfer_fee", s.repos_tight_max_with_fee);
+        r.guard("handler_reposition_netted_deposit_maximum_reruns_with_transfer_fee", s.repos_netted_max_with_fee);
     }
     r.set("exhaustive", false);
     r.assume("svm-lite faithfully replaces the validator (DESIGN §2.1); the Token-2022 processor is the real one (withheld fees stay in the recipient account, so `amount` deltas are the net amounts)");
